@@ -21,6 +21,8 @@ for d in sorted(glob.glob(os.path.join(VERIF, 'seeded', '*', ''))):
     note = m.get('result', '')
     if m.get('superseded'):
         det = ['(superseded) C03']
+    if m.get('excluded'):
+        det = ['(not counted: see last column)'] + det
     rows.append((name, rnd, esc(m.get('breaks', ''))[:220], esc(m.get('needs_to_manifest', ''))[:200], ', '.join(det) or 'none', esc(note)[:260]))
 out = ['<!-- SEEDED-TABLE-BEGIN -->', '', '| change | round | what it breaks | what it needs to manifest | quick checks that turn red | how it was caught |',
        '|---|---|---|---|---|---|']
